@@ -44,6 +44,7 @@ type scenario struct {
 	Servers []server `json:"servers"`
 	Bcast   bool     `json:"broadcast_flag"`
 	Cfg     int      `json:"cfg"` // client logging configuration (cli.LogOpts4)
+	Unicast bool     `json:"unicast_server_addr"` // the client is configured with WithServerAddr(<unicast>): it changes where the client sends, nothing else
 }
 
 // notype: a plain BOOTP reply (no option 53); badtype: option 53 with two octets; inform: a message type no exchange
@@ -52,7 +53,7 @@ var discKinds = []string{"notype", "badtype", "inform", "offer", "offer", "offer
 var reqKinds = []string{"notype", "badtype", "inform", "ack", "ack", "nak", "ack-othersid", "ack-nosid", "offer-again", "ack-wrongxid", "nak-othersid", "undecodable", "silence"}
 
 func genScenario(rng *rand.Rand, maxServers, maxReact int) scenario {
-	sc := scenario{Bcast: rng.IntN(2) == 0, Cfg: rng.IntN(cli.NCfg)}
+	sc := scenario{Bcast: rng.IntN(2) == 0, Cfg: rng.IntN(cli.NCfg), Unicast: rng.IntN(3) == 0}
 	ns := rng.IntN(maxServers + 1)
 	for s := 0; s < ns; s++ {
 		sv := server{ID: [4]byte{10, 0, byte(s + 1), 1}, Addr: [4]byte{192, 168, byte(s + 1), byte(10 + rng.IntN(200))}}
@@ -304,16 +305,23 @@ func run(t *testing.T, sc scenario) (o outcome) {
 			}
 		}()
 		restore := cli.QuietStderr()
-		c, err := nclient4.NewWithConn(conn, mac, append([]nclient4.ClientOpt{nclient4.WithTimeout(T), nclient4.WithRetry(2)}, cli.LogOpts4(sc.Cfg)...)...)
+		copts := append([]nclient4.ClientOpt{nclient4.WithTimeout(T), nclient4.WithRetry(2)}, cli.LogOpts4(sc.Cfg)...)
+		if sc.Unicast {
+			copts = append(copts, nclient4.WithServerAddr(&net.UDPAddr{IP: net.IP{10, 0, 1, 1}, Port: 67}))
+		}
+		c, err := nclient4.NewWithConn(conn, mac, copts...)
 		restore()
 		if err != nil {
 			t.Fatal(err)
 		}
 		ctx := context.Background()
-		var mods []dhcpv4.Modifier
+		// the caller's modifiers live in a list of its own with spare capacity (Request hands the same list to the
+		// DISCOVER and to the REQUEST builder)
+		mods := make([]dhcpv4.Modifier, 0, 12)
 		if sc.Bcast {
 			mods = append(mods, dhcpv4.WithBroadcast(true))
 		}
+		mods = append(mods, dhcpv4.WithOption(dhcpv4.OptHostName("verif-host")), dhcpv4.WithOption(dhcpv4.OptClassIdentifier("verif-class")), dhcpv4.WithOption(dhcpv4.OptGeneric(dhcpv4.GenericOptionCode(230), []byte{1, 2, 3})))
 		o.lease, o.reqErr = c.Request(ctx, mods...)
 		o.reqRetSeq = sconn.NextSeq()
 		if o.lease != nil {
